@@ -6,6 +6,7 @@ import sys
 
 ROOT = os.path.dirname(os.path.dirname(os.path.abspath(__file__)))
 sys.path.insert(0, ROOT)
+from tools import manifest_table as T  # noqa: E402
 from tools.manifest_table import CHECKS, ENGINES, NOT_APPLICABLE, NOTES  # noqa: E402
 
 PY = "/venv/bin/python"
@@ -22,7 +23,7 @@ def main():
                 "evidence_file": "evidence/%s.json" % pid,
                 "replay_cmd_template": "%s check.py %s --replay {path}" % (PY, pid),
                 "engine": c["engine"],
-                "level_claimed": {"category": c["level"], "text": c["text"], "design_ref": c["design_ref"]},
+                "level_claimed": {"category": c["level"], "text": c["text"] + T.EXTRA_TEXT.get(pid, ""), "design_ref": c["design_ref"]},
                 "level_note": c["note"],
                 "technique": c["technique"],
             }
